@@ -148,6 +148,22 @@ func TestVerifC19Config(t *testing.T) {
 	base := []string{"-proxy.dialtimeout=4s", "-proxy.responseheadertimeout=2s", "-proxy.keepalivetimeout=7s", "-proxy.idleconntimeout=9s", "-proxy.maxconn=77"}
 	others := [][]string{nil, {"-proxy.writetimeout=200ms"}, {"-proxy.readtimeout=200ms"}, {"-proxy.writetimeout=200ms", "-proxy.addr=:9999;wt=5s;rt=5s"}, {"-proxy.writetimeout=30s", "-proxy.readtimeout=30s"},
 		{"-proxy.flushinterval=100ms", "-proxy.globalflushinterval=100ms"}, {"-proxy.shutdownwait=100ms", "-proxy.deregistergraceperiod=100ms"}, {"-proxy.grpcshutdowntimeout=100ms", "-proxy.grpcmaxrxmsgsize=1"}, {"-proxy.addr=:9999;idletimeout=100ms"}}
+	// a negative keep-alive time is a value with a meaning of its own (net.Dialer: probes off), not a spelling of zero
+	{
+		L.Case()
+		L.NontrivialKey("load negative keepalive")
+		cfg, err := config.Load([]string{"fabio", "-proxy.keepalivetimeout=-1s", "-proxy.dialtimeout=4s"}, nil)
+		if err != nil || cfg.Proxy.KeepAliveTimeout != -time.Second || cfg.Proxy.DialTimeout != 4*time.Second {
+			L.Violation("configured-limit-changed-by-the-loader", map[string]interface{}{"args": "-proxy.keepalivetimeout=-1s -proxy.dialtimeout=4s", "err": fmt.Sprint(err), "loaded": fmt.Sprint(cfg != nil && true)})
+		} else {
+			cfg.Proxy.Strategy, cfg.Proxy.Matcher, cfg.GlobCacheSize = "rr", "prefix", 10
+			transport.SetConfig(cfg)
+			hp := newHTTPProxy(cfg, c19Stats())
+			if d, _ := c19Probe(hp.Transport); d == nil || d.KeepAlive != -time.Second {
+				L.Violation("transport-does-not-carry-the-configured-limits", map[string]interface{}{"option": "proxy.keepalivetimeout=-1s", "dialer": fmt.Sprintf("%+v", d)})
+			}
+		}
+	}
 	for _, extra := range others {
 		args := append(append([]string{"fabio"}, base...), extra...)
 		L.Case()
